@@ -21,6 +21,7 @@ type requestOpts struct {
 	handler       float64
 	silentProb    float64
 	bigE2E        float64
+	targetTE      bool    // the target itself may answer a probe with time-exceeded (no proof of arrival except for UDP/SACK)
 	privateTarget float64 // chance that the destination itself has a private address (not for SACK: its listener lives on loopback)
 }
 
@@ -165,7 +166,7 @@ func bareTarget(t string) string {
 func addRequestFlows(rng *rand.Rand, sc *sim.Scenario, o *requestOpts, p string) {
 	c := &sc.Calls[0]
 	v := variantForRequest(p)
-	wo := &wireOpts{variants: []Variant{v}, silentProb: o.silentProb, overtake: o.delays, noDest: 0.15, wellTimed: true}
+	wo := &wireOpts{variants: []Variant{v}, silentProb: o.silentProb, overtake: o.delays, noDest: 0.15, wellTimed: true, destForms: o.targetTE}
 	if o.silentProb == 0 {
 		wo.silentProb = 0.2
 	}
